@@ -30,7 +30,8 @@
     `majorities_intersect`     quorum intersection;
     `grant_restricts`          vote restriction: a granted vote implies `is_target_log_more_recent`;
     `commit_recorded_prefix`   what `recordCommit` stores is a prefix of the committing leader's log (a chain).
-  Not proved (named gap): the global induction `leader_completeness` under H_electionSafety ∧ H_noWipe ∧ H_durableAck
+  Not proved (named gap): the global induction `leader_completeness` under H_noWipe ∧ H_durableAck (H_electionSafety is a theorem:
+  `C04.election_safety`, used by the step lemmas above)
   (election argument: commit quorum ∩ vote quorum, per-voter history between acknowledgement and vote).
 -/
 import DEngine.Lemmas.ClusterKeep
@@ -56,13 +57,13 @@ def NoDiscardStatement : Prop :=
 -- ------------------------------------------------------------------------------------------ step lemma
 /-- An entry disappears from a node's log in one step only through a crash of that node, a prev=(0,0) reset
     request, or a delivered request that reaches below the entry (prev_index < its index) without repeating it. -/
-theorem no_discard_step {n cap : Nat} {c : Cluster} (hr : Reachable n cap c) (hes : H_electionSafety c)
+theorem no_discard_step {n cap : Nat} {c : Cluster} (hr : Reachable n cap c)
     (ev : Event) (j : NodeId) (x : Entry) (hx : x ∈ (c.nodes j).log) :
     x ∈ ((step c ev).1.nodes j).log ∨ (∃ k, ev = .crash j k) ∨
       ∃ m src sid r rp, ev = .deliverAe m ∧ findMsg c m = some (.ae src j sid r rp) ∧
         ((r.prevI = 0 ∧ r.prevT = 0) ∨
           (r.prevI < x.index ∧ ∀ y ∈ r.entries, y.index = x.index → y.term ≠ x.term)) := by
-  have hinv := reachable_inv hr hes
+  have hinv := (reachable_both hr).1
   cases log_step_cases c ev j with
   | same h => left; rw [h]; exact hx
   | append new h => left; rw [h]; exact List.mem_append_left _ hx
@@ -82,12 +83,12 @@ theorem no_discard_step {n cap : Nat} {c : Cluster} (hr : Reachable n cap c) (he
         · intro y hy hyi hyt; exact hk (Or.inr ⟨y, hy, hyi, hyt⟩)
 
 /-- Non-reset accept never discards an entry that the request's source log `ll` holds as well. -/
-theorem no_discard_shared {n cap : Nat} {c : Cluster} (hr : Reachable n cap c) (hes : H_electionSafety c)
+theorem no_discard_shared {n cap : Nat} {c : Cluster} (hr : Reachable n cap c)
     (j : NodeId) (r : AeReq) (hreq : ChainFrom c.ghost r.prevI r.prevT r.entries) (hnr : ¬(r.prevI = 0 ∧ r.prevT = 0))
     (ll : Log) (hll : Chain c.ghost ll) (hsub : ∀ y ∈ r.entries, y ∈ ll)
     (x : Entry) (hx : x ∈ (c.nodes j).log) (hxl : x ∈ ll) :
     x ∈ (acceptEntries (c.nodes j).log r.prevI r.prevT r.entries).1 := by
-  have hinv := reachable_inv hr hes
+  have hinv := (reachable_both hr).1
   exact accept_keeps_shared hinv.gfun (hinv.logs j) hll hsub hreq hnr hx hxl
 
 -- ------------------------------------------------------------------------------------------ components
@@ -197,13 +198,13 @@ theorem no_discard_fails_on_crash : ¬ NoDiscardStatement := by
 /-- `no_discard_committed` under the exact excluded triggers: a step that is neither a crash of the node nor the
     delivery of a prev=(0,0) request, and whose delivered request (if any) was cut out of a log that holds the entry
     (= leader completeness of the sender, H_leaderCompleteness), never discards the entry. -/
-theorem no_discard_committed_partial {n cap : Nat} {c : Cluster} (hr : Reachable n cap c) (hes : H_electionSafety c)
+theorem no_discard_committed_partial {n cap : Nat} {c : Cluster} (hr : Reachable n cap c)
     (ev : Event) (j : NodeId) (x : Entry) (hx : x ∈ (c.nodes j).log)
     (hnocrash : ∀ k, ev ≠ .crash j k)
     (hsender : ∀ m src sid r rp, ev = .deliverAe m → findMsg c m = some (.ae src j sid r rp) →
       ¬(r.prevI = 0 ∧ r.prevT = 0) ∧ ∃ ll, Chain c.ghost ll ∧ x ∈ ll ∧ ∀ y ∈ r.entries, y ∈ ll) :
     x ∈ ((step c ev).1.nodes j).log := by
-  have hinv := reachable_inv hr hes
+  have hinv := (reachable_both hr).1
   cases log_step_cases c ev j with
   | same h => rw [h]; exact hx
   | append new h => rw [h]; exact List.mem_append_left _ hx
